@@ -89,7 +89,7 @@ def load_known_findings():
     if p.exists():
         for line in p.read_text().splitlines():
             line = line.strip()
-            if line and not line.startswith("#"):
+            if line and not line.startswith("#") and not line.startswith("fixed:"):
                 out.append(json.loads(line))
     return out
 
